@@ -250,6 +250,30 @@ def diff(t, want, got, where=()):
     raise ValueError(t)
 
 
+def _only_a_zero_lost(t, want, got):
+    """True exactly when the set holds both 0.0 and -0.0 (distinct for Cassandra, equal for python)
+    and every element missing from the result is one of the two."""
+    import struct
+    et = V.unwrap(V.subtypes(t)[0])
+    if t[0] != 'set' or et[0] not in ('float', 'double'):
+        return False
+    try:
+        bits = lambda x: struct.pack('>d', x)
+        wanted = [bits(x) for x in want if isinstance(x, float)]
+        if len(wanted) != len(want) or bits(0.0) not in wanted or bits(-0.0) not in wanted:
+            return False
+        rest = [bits(x) for x in got if isinstance(x, float)]
+        lost = []
+        for b in wanted:
+            if b in rest:
+                rest.remove(b)
+            else:
+                lost.append(b)
+        return bool(lost) and all(b in (bits(0.0), bits(-0.0)) for b in lost)
+    except Exception:
+        return False
+
+
 def describe(d):
     """(fingerprint tail, text) for a diff tuple."""
     t, kind, where, want, got = d
@@ -258,6 +282,8 @@ def describe(d):
     tail = '%s/%s' % (t[0], kind)
     if kind in ('element-lost', 'element-added', 'length'):
         tail = '%s/%s/%s' % (t[0], kind, V.unwrap(V.subtypes(t)[0])[0])
+        if kind == 'element-lost' and _only_a_zero_lost(t, want, got):
+            tail += '/negative-zero'
     return tail, '%s inside %s: wanted %r, got %r' % (t[0], '/'.join(where) or 'top level', want, got)
 
 
